@@ -207,9 +207,31 @@ def _ova_cases(draw):
     ent = (st.one_of(st.just(0), st.integers(0, 12), st.integers(0, 10**6)) if dtype == "int"
            else st.one_of(st.just(0.0), st.integers(0, 40).map(lambda x: x / 4)))
     flat = draw(st.lists(ent, min_size=n, max_size=n))
-    return dict(kind=kind, classes=cls, lead=list(lead), dtype=dtype, flat=flat,
+    scale = 1.0
+    if dtype == "float":
+        # the overall scale of a weighted / normalised matrix is arbitrary
+        scale = draw(st.sampled_from([1.0, 1.0, 1e-11, 1e-9, 1e-6, 1e-3, 1e6, 1e12]))
+        flat = [v * scale for v in flat]
+    return dict(kind=kind, classes=cls, lead=list(lead), dtype=dtype, flat=flat, scale=scale,
                 perm=draw(st.permutations(list(range(K)))),
                 alpha=draw(st.floats(min_value=0.001, max_value=0.999)))
+
+
+def _denominator(name, ova):
+    """Denominator array of a per-class rate on a (..., K, 2, 2) one-vs-all array (None for counts)."""
+    tp, fn, fp, tn = ova[..., 0, 0], ova[..., 0, 1], ova[..., 1, 0], ova[..., 1, 1]
+    base = name[:-3] if name.endswith("_ci") else name
+    if base in ("tp", "tn", "fp", "fn", "p", "n", "top", "ton"):
+        return None
+    if base in ("tpr", "fnr", "tar", "frr"):
+        return tp + fn
+    if base in ("tnr", "fpr", "trr", "far"):
+        return fp + tn
+    if base in ("ppv", "fdr"):
+        return tp + fp
+    if base in ("npv", "for_"):
+        return tn + fn
+    return tp + fn + fp + tn
 
 
 def check_ova(case):
@@ -229,6 +251,13 @@ def check_ova(case):
     # reference, computed cell by cell in Python
     Af = A.reshape((-1, K, K)).tolist()
     of = om.reshape((-1, K, 2, 2)).tolist()
+    exact_sums = case["dtype"] == "int" or case.get("scale", 1.0) == 1.0
+
+    def eq(a, b, total):
+        # integer and quarter-valued matrices sum exactly; scaled float matrices to rounding error,
+        # measured relative to the matrix's own population (never an absolute tolerance)
+        return a == b if exact_sums else abs(a - b) <= 1e-12 * abs(total)
+
     for b, M in enumerate(Af):
         total = sum(sum(r) for r in M)
         for j in range(K):
@@ -238,9 +267,9 @@ def check_ova(case):
             g = of[b][j]
             ctx = f"class {cls[j]!r} of {M}"
             require(g[0][0] == tp, "ova:tp-diagonal", ctx)
-            require(g[0][0] + g[0][1] == rs, "ova:row-sum", f"{ctx}: {g}")
-            require(g[0][0] + g[1][0] == cs, "ova:col-sum", f"{ctx}: {g}")
-            require(g[0][0] + g[0][1] + g[1][0] + g[1][1] == total, "ova:population",
+            require(eq(g[0][0] + g[0][1], rs, total), "ova:row-sum", f"{ctx}: {g}")
+            require(eq(g[0][0] + g[1][0], cs, total), "ova:col-sum", f"{ctx}: {g}")
+            require(eq(g[0][0] + g[0][1] + g[1][0] + g[1][1], total, total), "ova:population",
                     f"{ctx}: {g} total {total}")
     # per-class metrics: shape, agreement with the binary metric on the reference one-vs-all,
     # as_dict, permutation equivariance
@@ -262,8 +291,23 @@ def check_ova(case):
         want_shape = lead + (K, 2) if is_ci else lead + (K,)
         require(v.shape == want_shape, "pc:shape", f"{name}: {v.shape} vs {want_shape}")
         exp = np.asarray(getattr(metrics, _BIN.get(name, name))(ref_ova, **kw))
-        require(np.allclose(v, exp, rtol=1e-12, atol=0, equal_nan=True), "pc:value",
-                lambda: f"{name}: {v.tolist()} vs {exp.tolist()}")
+        if exact_sums:
+            ok = np.allclose(v, exp, rtol=1e-12, atol=0, equal_nan=True)
+        else:
+            # scaled float matrices: counts to rounding error relative to the population; rates only
+            # where their denominator is clearly non-zero (a true 0 may come out as +-1e-17*pop)
+            pop = ref_ova.sum((-1, -2))
+            den = _denominator(name, ref_ova)
+            if is_ci:
+                ok = True  # sqrt(p(1-p)/n) amplifies rounding noise in p by 1/sqrt(n): not compared
+            elif den is None:
+                ok = bool(np.all(np.abs(v - exp) <= 1e-12 * pop))
+            else:
+                clear = den > 1e-6 * pop
+                if is_ci:
+                    clear = clear[..., None] & np.ones(2, dtype=bool)
+                ok = bool(np.all(np.abs(v[clear] - exp[clear]) <= 1e-9))
+        require(ok, "pc:value", lambda: f"{name}: {v.tolist()} vs {exp.tolist()}")
         ax = -2 if is_ci else -1
         dct = getattr(c, name)(as_dict=True, **kw)
         require(len(dct) == K, "pc:as-dict-keys", name)
@@ -272,8 +316,9 @@ def check_ova(case):
                                                 equal_nan=True),
                     "pc:as-dict", lambda: f"{name} class {k!r}")
         vp = np.asarray(getattr(cp, name)(**kw))
-        require(np.allclose(vp, np.take(v, perm, axis=ax), rtol=1e-12, atol=0, equal_nan=True),
-                "pc:equivariance", lambda: f"{name} perm {perm}")
+        if exact_sums:
+            require(np.allclose(vp, np.take(v, perm, axis=ax), rtol=1e-12, atol=0, equal_nan=True),
+                    "pc:equivariance", lambda: f"{name} perm {perm}")
     acc = np.asarray(c.accuracy(), dtype=float)
     require(acc.shape == lead, "pc:accuracy-shape", f"{acc.shape}")
     for b, M in enumerate(Af):
@@ -284,6 +329,17 @@ def check_ova(case):
             require(math.isnan(got), "pc:accuracy", f"pop 0 but {got!r}")
         else:
             require(abs(got - tr / total) <= 1e-12, "pc:accuracy", f"{got!r} vs {tr / total!r}")
+    # the metrics do not depend on the overall scale of a float matrix
+    if not exact_sums and A.size:
+        c1 = ConfusionMatrix(matrix=A / case["scale"], classes=cls)
+        pop = ref_ova.sum((-1, -2))
+        for name in ("tnr", "tpr", "ppv", "npv", "class_accuracy"):
+            den = _denominator(name, ref_ova)
+            clear = den > 1e-6 * pop
+            a_, b_ = np.asarray(getattr(c, name)()), np.asarray(getattr(c1, name)())
+            require(bool(np.all(np.abs(a_[clear] - b_[clear]) <= 1e-9)), "pc:scale-dependence",
+                    lambda: f"{name} changes when all entries are divided by {case['scale']}: "
+                            f"{a_.tolist()} vs {b_.tolist()}")
     require(np.array_equal(A, A0), "ova:mutated-input", "")
     off = bool(np.any(A.sum((-1, -2)) - np.trace(A, axis1=-2, axis2=-1) != 0)) if A.size else False
     labels = [f"K:{K}", f"rank:{len(lead)}"] + (["size0-axis"] if 0 in lead else [])
